@@ -340,6 +340,12 @@ CANARIES = {
         },
     },
     "C14": {
+        "worker_rng_state_discarded": {
+            "module": "mici.samplers",
+            "old": "                per_chain_rngs[chain_index].bit_generator.state = (\n                    rng.bit_generator.state\n                )",
+            "new": "                pass",
+            "cases": ["sched/2x2/1+1/fast"], "what": "the original defect: advanced generator copies of the workers are thrown away (streams replayed per stage)",
+        },
         "chains_share_one_stream": {
             "module": "mici.samplers",
             "old": "        return [default_rng(bit_generator.jumped(i)) for i in range(n_chain)]",
